@@ -58,8 +58,49 @@ def smap_case(draw):
     return {"map": direct, "mmap": macro, "pos": pos, "mpos": mpos, "remap": [[o, n_] for o, n_ in zip(keep, news)]}
 
 
+@st.composite
+def compiled_case(draw):
+    """source map produced by the compiler for a generated program with macros; the offset mapping is drawn"""
+    from vf import gen_macro, gen_prog
+
+    prog = draw(st.one_of(gen_macro.macro_programs(single_file=True, max_stmts=25), gen_prog.programs(max_stmts=20)))
+    return {"prog": prog, "keep": draw(st.lists(st.integers(0, 9), min_size=1, max_size=20)),
+            "news": draw(st.lists(st.integers(0, 400), min_size=1, max_size=30)), "sorted": draw(st.booleans())}
+
+
 def strategy(tier):
-    return smap_case()
+    return st.one_of(smap_case(), smap_case(), compiled_case())
+
+
+def compiled_to_case(case, stt):
+    """compile the program and turn its source map + drawn numbers into the plain case form"""
+    from vf import render
+    from vf.cut import compile_text
+    from vf.core import call_guard
+
+    comp, exc = call_guard(lambda: compile_text(render.render(case["prog"]).text))
+    if exc is not None:
+        return None
+    sm = comp.source_map
+    direct, macros, pm, pmm = fields(sm)
+    universe = sorted(set(direct) | set(macros) | {v[5] for v in macros.values() if v[5] is not None})
+    keep = [o for i, o in enumerate(universe) if case["keep"][i % len(case["keep"])] < 7]
+    news, used = [], set()
+    for i, o in enumerate(keep):
+        n = case["news"][i % len(case["news"])]
+        while n in used:
+            n += 1
+        used.add(n)
+        news.append(n)
+    if case["sorted"]:
+        news = sorted(news)
+    return {
+        "map": [[o, v[0], v[1]] for o, v in direct.items()],
+        "mmap": [[o, v[0], v[1], v[2], v[3], list(v[4]) if v[4] is not None else None, v[5], v[6]] for o, v in macros.items()],
+        "pos": [list(x) for x in pm],
+        "mpos": [[f, n, list(x)] for f, n, x in pmm],
+        "remap": [[o, n] for o, n in zip(keep, news)],
+    }
 
 
 def build(case):
@@ -124,6 +165,14 @@ def evaluate(case, stt):
     from explorerscript.source_map import SourceMap
 
     fails = []
+    if "prog" in case:
+        stt.count("stratum:compiler_produced_map")
+        case = compiled_to_case(case, stt)
+        if case is None:
+            stt.count("rejected_by_compiler")
+            return fails
+    else:
+        stt.count("stratum:arbitrary_well_typed_map")
     remap = {o: n for o, n in case["remap"]}
     dropped = [o for o, *_ in case["map"] + case["mmap"] if o not in remap]
     has_ret = any(e[6] is not None for e in case["mmap"])
